@@ -37,11 +37,19 @@ Tables (one ``table.run`` each, own counters in the evidence):
             from the Schmidt spectra of the dense input
   copts     method x {normalize, equalize_norms, inplace, permute_arrays,
             site_tags} on one shape
+  fitopts   fit / fit-zipup / fit-projector x max_iterations {1,2,3} and early
+            stopping tol x sweep_sequence {R,L,RL,LR} x bsz x sweep_reverse x
+            normalize: cap, canonical centre at the end named by the LAST sweep
+            performed, unit norm with normalize=True
   sweeps    left_compress / right_compress / compress(form) for every form on
             MPS and MPO, open (lossless / cap / canonical centre / error bound)
             and periodic (lossless / cap)
   gate      gate_with_mpo, mps_gate_with_mpo_* and gate_with_submpo /
-            gate_nonlocal for every method x site subset x transpose
+            gate_nonlocal for every method x site subset x transpose x
+            sweep_reverse; the ``info['cur_orthog']`` record they hand back is
+            verified by an isometry scan and by running schmidt_values /
+            bipartite_schmidt_state through the same record (all methods but
+            'fit': open finding C08-submpo-fit-record)
 
 Harness-side seams (no repository change): cotengra is told that our pool
 workers are worker processes so that its 'auto' path optimiser does not spawn
@@ -1423,6 +1431,81 @@ def _globally_exact(method, canonize=True):
     return method == "dm" or method.startswith(("sdc", "src", "fit"))
 
 
+def _record_defect(tn, L, cmin, cmax):
+    """numpy scan of a recorded orthogonality centre range (cmin, cmax): every
+    site left of it must be a left isometry, every site right of it a right
+    isometry (each towards its neighbour on the centre side)."""
+    worst = 0.0
+    for i in range(L):
+        if cmin <= i <= cmax:
+            continue
+        j = i + 1 if i < cmin else i - 1
+        t = tn[i]
+        bs = tuple(t.bonds(tn[j]))
+        if len(bs) != 1:
+            raise AssertionError("sites %d,%d share %d bonds" % (i, j, len(bs)))
+        (b,) = bs
+        rest = [ix for ix in t.inds if ix != b]
+        m = np.asarray(t.to_dense(rest, [b])) if rest else np.asarray(t.data).reshape(1, -1)
+        worst = max(worst, ref.isometry_defect(m))
+    return worst
+
+
+def _check_record(R, sub, out, info, vo, phys, sig):
+    """the ``info['cur_orthog']`` record handed back by a gating call: (1) it
+    must hold on the tensors (fresh isometry scan), (2) quantities computed
+    AFTERWARDS through the same record (schmidt_values, bipartite_schmidt_state)
+    must equal the dense ones.  Returns True when everything held."""
+    L = len(phys)
+    entry = sig["entry"]
+    rec = info.get("cur_orthog", None)
+    try:
+        cmin, cmax = (rec, rec) if isinstance(rec, int) else tuple(rec)
+        cmin, cmax = int(cmin), int(cmax)
+        if not (0 <= cmin <= cmax <= L - 1):
+            raise ValueError(rec)
+    except Exception:
+        R.bad(sub, "%s: info['cur_orthog'] = %r is not a site / (min, max) range after the call" % (entry, rec), check="record", **sig)
+        return False
+    try:
+        rd = _record_defect(out, L, cmin, cmax)
+    except Exception as ex:
+        R.bad(sub, "%s: cannot scan the recorded canonical form (%s: %s)" % (entry, _exc_name(ex), str(ex)[:200]), check="structure", **sig)
+        return False
+    if rd > ISO_TOL:
+        R.bad(sub, "%s: info['cur_orthog'] = %r is recorded, but a site outside that range is not an isometry towards it (defect %.3g)" % (entry, rec, rd), check="record", **sig)
+        return False
+    tot = float(np.vdot(vo, vo).real)
+    for cut in range(1, L):
+        s_ref = np.linalg.svd(np.asarray(vo).reshape(_prod(phys[:cut]), -1), compute_uv=False)
+        for fn in ("schmidt_values", "bipartite_schmidt_state"):
+            work, winfo = out.copy(), dict(info)
+            try:
+                if fn == "schmidt_values":
+                    got = np.sort(np.abs(np.asarray(work.schmidt_values(cut, info=winfo)).reshape(-1)))[::-1]
+                    want = s_ref**2
+                    atol = 1e-9 * tot
+                else:
+                    kd = np.asarray(work.bipartite_schmidt_state(cut, get="ket-dense", info=winfo)).reshape(-1)
+                    chi = int(round(kd.size**0.5))
+                    m = kd.reshape(chi, chi)
+                    if np.max(np.abs(m - np.diag(np.diag(m)))) > 1e-9 * tot**0.5:
+                        raise AssertionError("Schmidt state is not diagonal")
+                    got = np.sort(np.abs(np.diag(m)))[::-1]
+                    want = s_ref
+                    atol = 1e-9 * tot**0.5
+            except Exception as ex:
+                R.bad(sub, "%s then %s(%d, info=<same record %r>) raised %s: %s" % (entry, fn, cut, rec, _exc_name(ex), str(ex)[:160]), check="record-followup", followup=fn, **sig)
+                return False
+            n = max(len(got), len(want))
+            got = np.pad(got, (0, n - len(got)))
+            want = np.pad(want, (0, n - len(want)))
+            if not np.all(np.abs(got - want) <= atol + 1e-8 * np.abs(want)):
+                R.bad(sub, "%s then %s(%d, info=<same record %r>): %r differs from the dense Schmidt spectrum %r" % (entry, fn, cut, rec, got[:4].tolist(), want[:4].tolist()), check="record-followup", followup=fn, **sig)
+                return False
+    return True
+
+
 def _settings(ranks, tier, stored=None):
     """(name, max_bond, cutoff, kind): kind 'lossless' = nothing needs
     truncating for any method, 'rank' = the global rank fits (lossless for the
@@ -1621,6 +1704,100 @@ def _cells_copts(tier, methods):
             for ik in ("stack2",) if tier == "quick" else ("stack2", "sum", "inflated"):
                 for dt in ("complex128",) if tier == "quick" else ("float64", "complex128"):
                     cells.append(("copts", method, opt, ik, dt))
+    return cells
+
+
+# --------------------------------------------------------------------------- #
+#        table: fitopts (variational fits x sweep schedule x normalize)       #
+# --------------------------------------------------------------------------- #
+
+
+def _fit_methods(methods):
+    # 'fit-oversample' fixes its own schedule (one 'R' sweep + a direct sweep)
+    return [m for m in methods if m.startswith("fit") and m != "fit-oversample"]
+
+
+_FIT_SCHEDULES = tuple((n, 0.0) for n in (1, 2, 3)) + ((7, 1e-1), (7, 1e-4))
+
+
+def cell_fitopts(cell, common):
+    """fit / fit-zipup / fit-projector for every sweep schedule: whatever
+    number of sweeps was performed and whichever way the last one went, the
+    bond cap holds, the result is canonical about an END site - the one the
+    docstring names when the number of sweeps is known (tol=0) - and
+    normalize=True returns a unit vector.  (Few sweeps need not have
+    converged: closeness to the input is not asserted here.)"""
+    cell = _tt(cell)
+    qtn = _qtn()
+    R = _Res(cell)
+    _, method, ik, L, physk, dtype = cell
+    phys = _phys(physk, L)
+    tn, vin, dims, isop, stored = _compress_input(ik, L, physk, dtype)
+    ranks, amb = _rank_profile(_schmidt(vin, dims))
+    if amb:
+        R.rej("all", "harness:ambiguous-rank-profile")
+        return R
+    rmax = max(ranks)
+    for mb in sorted({rmax, max(1, rmax - 1)}):
+        for bsz in (1, 2):
+            for seq in ("R", "L", "RL", "LR"):
+                for nit, tol in _FIT_SCHEDULES:
+                    for rev in (False, True):
+                        for nrm in (False, True):
+                            sub = "mb=%d,bsz=%d,seq=%s,its=%d,tol=%g,rev=%d,normalize=%d" % (mb, bsz, seq, nit, tol, rev, nrm)
+                            sig = dict(entry="tensor_network_1d_compress", method=method, option="sweep-schedule", normalize=bool(nrm))
+                            try:
+                                out = qtn.tensor_network_1d_compress(tn, max_bond=mb, cutoff=0.0, method=method, sweep_reverse=rev, normalize=nrm, max_iterations=nit, tol=tol, sweep_sequence=seq, bsz=bsz, seed=7)
+                                vo = _out_vec(out, isop, phys)
+                                mxb = out.max_bond()
+                                if out.num_tensors != L:
+                                    raise AssertionError("%d tensors for %d sites" % (out.num_tensors, L))
+                            except Exception as ex:
+                                R.bad(sub, "compress(method=%r, %s) raised %s: %s" % (method, sub, _exc_name(ex), str(ex)[:200]), check="crash", exc=_exc_name(ex), **sig)
+                                continue
+                            if not np.all(np.isfinite(vo)):
+                                R.bad(sub, "compress(method=%r, %s): non-finite result" % (method, sub), check="nonfinite", **sig)
+                                continue
+                            if mxb > mb:
+                                R.bad(sub, "compress(method=%r, %s): max_bond()=%d exceeds %d" % (method, sub, mxb, mb), check="cap", **sig)
+                                continue
+                            # promised centre: last sweep 'L' (right to left) ends at
+                            # site_tags[0], 'R' at site_tags[-1]; swapped by sweep_reverse
+                            try:
+                                d0 = _canon_defect(out, list(range(L)), 0)
+                                d1 = _canon_defect(out, list(range(L)), L - 1)
+                            except Exception as ex:
+                                R.bad(sub, "compress(method=%r, %s): cannot verify canonical form (%s: %s)" % (method, sub, _exc_name(ex), str(ex)[:200]), check="structure", **sig)
+                                continue
+                            if tol == 0.0:
+                                last = seq[(nit - 1) % len(seq)]
+                                at0 = (last == "L") != bool(rev)
+                                dd, c = (d0, 0) if at0 else (d1, L - 1)
+                                if dd > ISO_TOL:
+                                    R.bad(sub, "compress(method=%r, %s): %d sweeps ending with %r promise the canonical centre at site %d, but another site is not an isometry towards it (defect %.3g; towards the other end %.3g)" % (method, sub, nit, last, c, dd, d1 if at0 else d0), check="canon", **sig)
+                                    continue
+                            elif min(d0, d1) > ISO_TOL:
+                                R.bad(sub, "compress(method=%r, %s): result is canonical about neither end (defects %.3g, %.3g)" % (method, sub, d0, d1), check="canon", **sig)
+                                continue
+                            nv = float(np.linalg.norm(vo))
+                            if nrm and abs(nv - 1.0) > 1e-9:
+                                R.bad(sub, "compress(method=%r, %s): normalize=True returned a vector of norm %.9g" % (method, sub, nv), check="normalize", **sig)
+                                continue
+                            R.ok(sub, outcome="fitopts:%s:its=%d:tol=%g" % (seq, nit, tol))
+    return R
+
+
+def _cells_fitopts(tier, methods):
+    quick = tier == "quick"
+    cells = []
+    for method in _fit_methods(methods):
+        for ik in ("sum", "stack2") if quick else ("sum", "stack2", "inflated", "mpo2"):
+            for L in (3, 4) if quick else (2, 3, 4, 5):
+                if ik == "mpo2" and L > 3:
+                    continue
+                for physk in ("u2",) if quick else ("u2", "s"):
+                    for dt in ("complex128",) if quick else ("float64", "complex128"):
+                        cells.append(("fitopts", method, ik, L, physk, dt))
     return cells
 
 
@@ -1844,31 +2021,42 @@ def cell_gate(cell, common):
             for sname, mb, co, skind in (("roomy", 16, 1e-12, "lossless"), ("cap2", 2, 0.0, "cap")):
                 if method == "lazy" and sname != "roomy":
                     continue
-                sub = "T=%d,%s" % (transpose, sname)
-                sig = dict(entry=entry, method=method, region=region)
-                a = qtn.MatrixProductState(aa)
-                kw = dict(_method_kw(method))
-                if method != "lazy":
-                    kw.update(max_bond=mb, cutoff=co)
-                try:
-                    if entry == "gate_nonlocal":
-                        out = a.gate_nonlocal(G, where, method=method, transpose=transpose, **kw)
-                    else:
-                        sub_mpo = qtn.MatrixProductOperator.from_dense(G, dimsw, sites=where, L=L, cutoff=0.0)
-                        out = a.gate_with_submpo(sub_mpo, method=method, transpose=transpose, **kw)
-                    vo = _dv(out)
-                    mxb = out.max_bond()
-                except Exception as ex:
-                    R.bad(sub, "%s(where=%r, method=%r) raised %s: %s" % (entry, where, method, _exc_name(ex), str(ex)[:200]), check="crash", exc=_exc_name(ex), **sig)
-                    continue
-                err = float(np.linalg.norm(vo - vin) / np.linalg.norm(vin))
-                if not np.isfinite(err):
-                    R.bad(sub, "%s: non-finite result" % entry, check="nonfinite", **sig)
-                elif skind == "lossless" and err > _lossless_tol(method):
-                    R.bad(sub, "%s(where=%r, method=%r): nothing needed truncating but the state differs from G|psi> by %.3g" % (entry, where, method, err), check="lossless", **sig)
-                elif skind == "cap" and mxb > mb:
-                    R.bad(sub, "%s(where=%r, method=%r): max_bond %d > %d" % (entry, where, method, mxb, mb), check="cap", **sig)
-                else:
+                for rev in (False, True):
+                    if method == "lazy" and rev:
+                        continue
+                    sub = "T=%d,%s,rev=%d" % (transpose, sname, rev)
+                    sig = dict(entry=entry, method=method, region=region)
+                    a = qtn.MatrixProductState(aa)
+                    kw = dict(_method_kw(method))
+                    info = {}
+                    if method != "lazy":
+                        kw.update(max_bond=mb, cutoff=co, sweep_reverse=rev, info=info)
+                    try:
+                        if entry == "gate_nonlocal":
+                            out = a.gate_nonlocal(G, where, method=method, transpose=transpose, **kw)
+                        else:
+                            sub_mpo = qtn.MatrixProductOperator.from_dense(G, dimsw, sites=where, L=L, cutoff=0.0)
+                            out = a.gate_with_submpo(sub_mpo, method=method, transpose=transpose, **kw)
+                        vo = _dv(out)
+                        mxb = out.max_bond()
+                    except Exception as ex:
+                        R.bad(sub, "%s(where=%r, method=%r, sweep_reverse=%r) raised %s: %s" % (entry, where, method, rev, _exc_name(ex), str(ex)[:200]), check="crash", exc=_exc_name(ex), **sig)
+                        continue
+                    err = float(np.linalg.norm(vo - vin) / np.linalg.norm(vin))
+                    if not np.isfinite(err):
+                        R.bad(sub, "%s: non-finite result" % entry, check="nonfinite", **sig)
+                        continue
+                    if skind == "lossless" and err > _lossless_tol(method):
+                        R.bad(sub, "%s(where=%r, method=%r, sweep_reverse=%r): nothing needed truncating but the state differs from G|psi> by %.3g" % (entry, where, method, rev, err), check="lossless", **sig)
+                        continue
+                    if skind == "cap" and mxb > mb:
+                        R.bad(sub, "%s(where=%r, method=%r, sweep_reverse=%r): max_bond %d > %d" % (entry, where, method, rev, mxb, mb), check="cap", **sig)
+                        continue
+                    # the record handed back through `info` (not for 'lazy': nothing is
+                    # canonised; not for 'fit': open finding C08-submpo-fit-record)
+                    if method not in ("lazy", "fit"):
+                        if not _check_record(R, sub, out, info, vo, phys, dict(sig, rev=bool(rev))):
+                            continue
                     R.ok(sub, nontrivial=len(where) > 1, outcome="%s:%s" % (skind, "exact" if err < 1e-7 else "truncated"))
         return R
     raise KeyError(kind)
@@ -1942,6 +2130,7 @@ cell_submpo = _guarded(cell_submpo, "submpo")
 cell_compress = _guarded(cell_compress, "compress")
 cell_copts = _guarded(cell_copts, "copts")
 cell_sweeps = _guarded(cell_sweeps, "sweeps")
+cell_fitopts = _guarded(cell_fitopts, "fitopts")
 cell_gate = _guarded(cell_gate, "gate")
 
 
@@ -1957,12 +2146,13 @@ def run(ctx):
         ("submpo", "cell_submpo", lambda t: _cells_submpo(t)),
         ("compress", "cell_compress", lambda t: _cells_compress(t, methods)),
         ("copts", "cell_copts", lambda t: _cells_copts(t, methods)),
+        ("fitopts", "cell_fitopts", lambda t: _cells_fitopts(t, methods)),
         ("sweeps", "cell_sweeps", lambda t: _cells_sweeps(t)),
         ("gate", "cell_gate", lambda t: _cells_gate(t, methods)),
     ]
     quick = ctx.tier == "quick"
     ctx.rule = (
-        "every cell of the tables build / arith / ptr / submpo / compress / copts / sweeps / gate is evaluated on the real quimb routine "
+        "every cell of the tables build / arith / ptr / submpo / compress / copts / fitopts / sweeps / gate is evaluated on the real quimb routine "
         "and compared with a numpy-only reference computed from the same site arrays; a case is (table, entry point + options, length, "
         "physical dims, boundary, bond dims, dtype, site subset / shape string / method x sweep_reverse x canonize x input kind x setting); "
         "it is non-trivial when the chain has >= 2 sites (arithmetic), the kept / acted set is a proper subset, a lossless compression "
@@ -1993,6 +2183,8 @@ def run(ctx):
         "root-sum-square error bound asserted for method='direct' with canonize=True and for MPS/MPO.compress(form != 'flat'), cutoff=0 and an explicit cap",
         "single precision only for constructors and arithmetic (rtol 5e-4)",
         "max_bond=None rejections: ValueError of src*/srcmps*/fit*/sdc-oversample and the TypeError of srcmps",
+        "fitopts: few sweeps need not have converged, so only cap / canonical centre / unit norm are asserted there; with tol > 0 the number of sweeps is not observable, so the centre may be at either end",
+        "gate_sub info record: not checked for method='lazy' (nothing canonised) and method='fit' (open finding C08-submpo-fit-record)",
     ]
     for name, fname, gen in TABLES:
         if only and name not in only.split(","):
